@@ -30,6 +30,6 @@ func emitClassifyCode(repo string) (string, error) {
 		},
 		libMut:  map[string]string{"(*bytes.Buffer).WriteString": "Lib.Buffer_WriteString"},
 		prelude: "variable (E : Flamego.Engine)\n",
-		skip:    map[string]string{"String": "renders through a bytes.Buffer inside a sync.Once (the renderer is C06's subject)"},
+		skip:    map[string]string{"String": "translated on its own in Gen/SegStringCode.lean and Gen/RouteStringCode.lean (Props/C06Code)"},
 	})
 }
